@@ -107,6 +107,14 @@ func checkC16(p *Program, r *Report) {
 						if strings.Contains(exprString(ret.Results[0]), "."+f.Name()) {
 							retOK = true
 						}
+						// single-exit spelling: the result is a φ one of whose edges is the memo (third benign round)
+						if ph, isPh := ret.Results[0].(*ssa.Phi); isPh {
+							for _, e := range ph.Edges {
+								if strings.Contains(exprString(e), "."+f.Name()) {
+									retOK = true
+								}
+							}
+						}
 					}
 					// named results (functions with defer): the memo is assigned to the result variable
 					for _, in := range blk.Instrs {
